@@ -544,14 +544,14 @@ func buildMore(dir string, thorough bool) {
 
 func buildMoreTargets(thorough bool) {
 	buildPureTargets(thorough)
-	addTarget(thorough, "store.ReplicateTx", 1, 2, replicateRun(false))
-	addTarget(thorough, "store.ReplicateTx(skipIntegrityCheck)", 1, 1, replicateRun(true))
-	addTarget(thorough, "sql.indexEntryMapper", 2, 3, mapperRun).init = mapperInit
-	addTarget(thorough, "store.valueRefFrom", 1, 1, vrefRun)
-	addTarget(thorough, "store.Open+read", -1, -1, storeOpenRun)
-	addTarget(thorough, "tbtree.Open+scan", -1, -1, tbtreeRun)
-	addTarget(thorough, "ahtree.Open+read", -1, -1, ahtRun)
-	addTarget(thorough, "singleapp.Open+read", -1, -1, singleappRun)
-	addTarget(thorough, "multiapp.Open+read", -1, -1, multiappRun)
-	addTarget(thorough, "pgsql.session", 2, 2, pgSessionRun).init = pgSessionInit
+	addTarget(thorough, 256, "store.ReplicateTx", 1, 2, replicateRun(false))
+	addTarget(thorough, 256, "store.ReplicateTx(skipIntegrityCheck)", 1, 1, replicateRun(true))
+	addTarget(thorough, 4096, "sql.indexEntryMapper", 2, 3, mapperRun).init = mapperInit
+	addTarget(thorough, 256, "store.valueRefFrom", 1, 1, vrefRun)
+	addTarget(thorough, 256, "store.Open+read", -1, -1, storeOpenRun)
+	addTarget(thorough, 256, "tbtree.Open+scan", -1, -1, tbtreeRun)
+	addTarget(thorough, 256, "ahtree.Open+read", -1, -1, ahtRun)
+	addTarget(thorough, 256, "singleapp.Open+read", -1, -1, singleappRun)
+	addTarget(thorough, 256, "multiapp.Open+read", -1, -1, multiappRun)
+	addTarget(thorough, 4096, "pgsql.session", 2, 2, pgSessionRun).init = pgSessionInit
 }
